@@ -743,3 +743,129 @@ def scenarios_construct(seed, n):
                 continue
         out.append(sc)
     return out
+
+
+def range_cond(kind, lo, hi):
+    """model-form descriptor of val_range / len_range (the live object is built by the library itself)"""
+    leaves = []
+    if kind == 'val':
+        if lo is not None:
+            leaves.append({'valCmp': ['ge', ENC.enc(lo)], 'name': f'v >= {lo}'})
+        if hi is not None:
+            leaves.append({'valCmp': ['le', ENC.enc(hi)], 'name': f'v <= {hi}'})
+        return {'cond': {'all': leaves, '_range': [kind, lo, hi]}, 'fmt': 'satisfying'}
+    if lo is not None:
+        leaves.append({'lenCmp': ['ge', lo], 'name': f"at least {lo} {'elem' if lo == 1 else 'elems'}"})
+    if hi is not None:
+        leaves.append({'lenCmp': ['le', hi], 'name': f"at most {hi} {'elem' if hi == 1 else 'elems'}"})
+    return {'cond': {'all': leaves, '_range': [kind, lo, hi]}, 'fmt': 'withName'}
+
+
+def scenarios_cond(seed, n):
+    """C13: condition expressions x inner types x boundary values"""
+    g = random.Random(seed)
+    out = []
+    for i in range(n):
+        ge = Gen(g.randrange(1 << 62), max_depth=2, classes=False)
+        r = ge.r
+        inner = r.choice(['int', 'float', 'int', 'float', 'str', {'seq': ['list', 'int']}, {'seq': ['tuple', 'any']}, {'map': ['dict', ['str', 'int']]},
+                          {'union': ['int', 'str']}, 'any', 'bool', 'complex'])
+        anns = []
+        for _ in range(r.randint(1, 3)):
+            p = r.random()
+            if p < 0.3:
+                lo = r.choice([None, -2, 0, 1, 3])
+                hi = r.choice([0, 2, 5]) if lo is None else r.choice([None, 0, 2, 5])
+                anns.append(range_cond('val', lo, hi))
+            elif p < 0.5:
+                lo = r.choice([None, 0, 1, 2])
+                hi = r.choice([0, 1, 3]) if lo is None else r.choice([None, 0, 1, 3])
+                anns.append(range_cond('len', lo, hi))
+            else:
+                c = ge.gen_cond()
+                anns.append({'cond': c, 'fmt': {'adjective': [c['name'], 'a']} if 'stock' in c else 'satisfying'})
+        ty = {'ann': [inner, anns]}
+        if r.random() < 0.3:
+            ty = {'seq': ['list', ty]}
+        # boundary values
+        leaf = lambda: r.choice([0, 1, -1, 2, 3, 5, 6, -2, -3, 0.0, -0.0, 0.5, 2.0, 5.0, float('inf'), float('-inf'), float('nan'), True, False,
+                                 '', 'a', 'abc', [], [1], [1, 2], [1, 2, 3, 4], (), (1,), {}, {'a': 1}, {'a': 1, 'b': 2}, None, 2 ** 60, complex(1, 0)])
+        v = leaf()
+        if isinstance(ty, dict) and 'seq' in ty:
+            v = [leaf() for _ in range(r.randint(0, 3))]
+        try:
+            wire = ENC.enc(v)
+        except Exception:
+            continue
+        out.append({'id': f'c{seed}:{i}', 'decl': ge.decl, 'op': 'from_data', 'ty': ty, 'val': wire, 'spell': r.randrange(2), 'stream': 'cond'})
+    return out
+
+
+def scenarios_tagged(seed, n):
+    """C12: variant sets x three layouts x tag shapes x mapping sizes / non-mappings"""
+    g = random.Random(seed)
+    out = []
+    for i in range(n):
+        ge = Gen(g.randrange(1 << 62), max_depth=1, classes=True)
+        r = ge.r
+        tagname = r.choice(['tag', 'kind', 'ty'])
+        tagvals = r.sample(['a', 'b', 'c', 1, 2, None], r.randint(2, 3))
+        if r.random() < 0.15 and not any(x == 1 for x in tagvals):
+            tagvals[0] = True
+        members = []
+        for tvv in tagvals:
+            name = ge.fresh('V')
+            fields = []
+            seen_default = False
+            for fn in r.sample(['x', 'y', 'zz'], r.randint(0, 2)):
+                fty = r.choice(['int', 'str', 'float', {'seq': ['list', 'int']}])
+                f = {'name': fn, 'ty': fty}
+                if seen_default or r.random() < 0.6:
+                    f['default'] = {'value': ENC.enc(ge.valid(fty, 2))}
+                    seen_default = True
+                fields.append(f)
+            fields.append({'name': tagname, 'ty': {'lit': [ENC.enc(tvv)]}, 'default': {'value': ENC.enc(tvv)}})
+            d = {'name': name, 'fields': fields, 'opts': {}, 'hook': None}
+            if r.random() < 0.15:
+                d['opts']['allow_extra'] = True
+            ge.decl['classes'].append(d)
+            ge.class_info[name] = d
+            members.append({'cls': [name, []]})
+        if r.random() < 0.08 and len(tagvals) >= 2:   # duplicate tag values: refused at build
+            ge.decl['classes'][-1]['fields'][-1] = dict(ge.decl['classes'][0]['fields'][-1])
+        layout = r.choice(['internal', 'external', ['t', 'c'], 'internal'])
+        ty = {'ann': [{'union': members}, [{'tagged': [tagname, layout]}]]}
+        m = r.randrange(len(members))
+        d = ge.class_info[members[m]['cls'][0]]
+        body = {f['name']: ge.valid(f['ty'], 1) for f in d['fields'][:-1] if 'default' not in f or r.random() < 0.5}
+        if r.random() < 0.25 and body:
+            k = r.choice(list(body))
+            body[k] = ge.rscalar()
+        tagv = r.choice([tagvals[m]] * 5 + [r.choice(tagvals), 'zzz', None, [1], {'a': 1}, 3.5])
+        mode = r.random()
+        if layout == 'internal':
+            v = dict(body)
+            if mode < 0.88:
+                v = {tagname: tagv, **body} if r.random() < 0.7 else {**body, tagname: tagv}
+        elif layout == 'external':
+            try:
+                hash(tagv)
+            except TypeError:
+                tagv = 'zzz'
+            v = {tagv: body}
+            if mode > 0.85:
+                v = r.choice([{}, {tagv: body, 'other': 1}])
+        else:
+            v = {'t': tagv, 'c': body}
+            if mode > 0.85:
+                v = r.choice([{'t': tagv}, {'t': tagv, 'c': body, 'x': 1}, {'t': tagv, 'd': body}, {}])
+        if r.random() < 0.06:
+            v = r.choice([None, 3, 'abc', [1, 2], [body]])
+        try:
+            wire = ENC.enc(v)
+            json.dumps(wire)
+        except Exception:
+            continue
+        op = r.choice(['from_data', 'from_data', 'try_collect', 'roundtrip'])
+        out.append({'id': f't{seed}:{i}', 'decl': ge.decl, 'op': op, 'ty': ty, 'val': wire, 'spell': r.randrange(2), 'stream': 'tagged'})
+    return out
